@@ -82,7 +82,7 @@ theorem ex_ne : noEmptyEntry (.struct exF) exB = true := by
     findField, findField.go, fieldOpt_empty, isRepeated, unname]
 
 /-- the main theorem applied -/
-theorem ex_by_theorem : unmarshal (.struct exF) exB = .ok exV :=
+theorem ex_by_theorem : unmarshalU (.struct exF) exB = .ok exV :=
   unmarshal_of_decode_map_partial exF ex_ty exB exV ex_ne ex_ref
 
 def exInnerC : CFields := .cons 1 false false false .int32 (.cons 2 false false false .string .nil)
@@ -100,8 +100,8 @@ theorem ex_codec : codecOf (.struct exF) = .struct exC := by
 
 /-- **the conclusion of the theorem, checked independently by evaluation** (`rfl`; the struct tags are the only thing
 the kernel cannot evaluate — `String.splitOn` — hence `ex_codec` first) -/
-theorem ex_by_evaluation : unmarshal (.struct exF) exB = .ok exV := by
-  unfold unmarshal
+theorem ex_by_evaluation : unmarshalU (.struct exF) exB = .ok exV := by
+  unfold unmarshalU
   rw [ex_codec]
   rfl
 
@@ -122,8 +122,8 @@ theorem m_codec : codecOf (.struct mF) = .struct mC := by
 
 /-- the model's map arm on an empty entry chunk, every map codec: nothing is assigned (the slot becomes a non-nil map) -/
 theorem decode_map_empty (f num : Nat) (kc vc : Codec) (kEmb vEmb : Bool) (entry : Codec) (cur : Val) (fl : Flags) :
-    decode (f + 1) (.map num kc vc kEmb vEmb entry) [] cur fl = .ok (.map (mapCur cur), 0) := by
-  simp only [decode, List.isEmpty_nil, if_true]
+    decodeU (f + 1) (.map num kc vc kEmb vEmb entry) [] cur fl = .ok (.map (mapCur cur), 0) := by
+  simp only [decodeU, List.isEmpty_nil, if_true]
   cases cur <;> rfl
 
 /-- `0a 00`: one zero-length entry -/
@@ -136,8 +136,8 @@ theorem e1_ref : Spec.Protobuf.decode (.struct mF) e1
   simp [Spec.Protobuf.decode, mF, e1, deref, decodeMsg, parse, readVarint, readVarint.go, decodeRecs,
     findField, findField.go, fieldOpt_empty, isRepeated, unname, Spec.Protobuf.zeroFields,
     Spec.Protobuf.zeroOf, valsGet, valsSet, mapPut, wrapPtr]
-theorem e1_model : unmarshal (.struct mF) e1 = .ok (.struct (.cons (.map .nil) .nil)) := by
-  unfold unmarshal; rw [m_codec]; rfl
+theorem e1_model : unmarshalU (.struct mF) e1 = .ok (.struct (.cons (.map .nil) .nil)) := by
+  unfold unmarshalU; rw [m_codec]; rfl
 theorem e1_excluded : noEmptyEntry (.struct mF) e1 = false := by
   simp [noEmptyEntry, neMsg, neRecs, mF, e1, deref, parse, readVarint, readVarint.go, findField, findField.go,
     fieldOpt_empty, isRepeated, unname]
@@ -147,7 +147,7 @@ reference accepts the input as `{"": 0}`, `Unmarshal` accepts it as the EMPTY ma
 the harness's normal form.  (`noEmptyEntry = false` on it.) -/
 theorem empty_entry_differs :
     tyOKM (.struct mF) = true ∧ noEmptyEntry (.struct mF) e1 = false ∧
-    ∃ v v', Spec.Protobuf.decode (.struct mF) e1 = some v ∧ unmarshal (.struct mF) e1 = .ok v' ∧
+    ∃ v v', Spec.Protobuf.decode (.struct mF) e1 = some v ∧ unmarshalU (.struct mF) e1 = .ok v' ∧
       canonical (.struct mF) v' ≠ canonical (.struct mF) v := by
   refine ⟨m_ty, e1_excluded, _, _, e1_ref, e1_model, ?_⟩
   simp [canonical, canonTy, canonTyFields, canonTyMap, canon, canonVals, mF, Spec.Protobuf.pairsOf,
@@ -159,14 +159,14 @@ theorem e2_ref : Spec.Protobuf.decode (.struct mF) e2
     findField, findField.go, fieldOpt_empty, isRepeated, unname, decodeOne, Spec.Protobuf.zeroFields,
     Spec.Protobuf.zeroOf, valsGet, valsSet, mapPut, wrapPtr, unwrapPtr, show_str_iff, IntKind.signed,
     IntKind.inRange, IntKind.bits, Spec.Protobuf.toInt64]
-theorem e2_model : unmarshal (.struct mF) e2
+theorem e2_model : unmarshalU (.struct mF) e2
     = .ok (.struct (.cons (.map (.cons (.str []) (.cons (.int 5) .nil))) .nil)) := by
-  unfold unmarshal; rw [m_codec]; rfl
+  unfold unmarshalU; rw [m_codec]; rfl
 
 /-- LM1, second effect (witness `0a 02 10 05 0a 00`): the zero-length entry does not override the earlier entry for
 the default key — the reference yields `{"": 0}`, `Unmarshal` `{"": 5}` -/
 theorem empty_entry_no_override :
-    ∃ v v', Spec.Protobuf.decode (.struct mF) e2 = some v ∧ unmarshal (.struct mF) e2 = .ok v' ∧
+    ∃ v v', Spec.Protobuf.decode (.struct mF) e2 = some v ∧ unmarshalU (.struct mF) e2 = .ok v' ∧
       canonical (.struct mF) v' ≠ canonical (.struct mF) v := by
   refine ⟨_, _, e2_ref, e2_model, ?_⟩
   simp [canonical, canonTy, canonTyFields, canonTyMap, canon, canonVals, mF, Spec.Protobuf.pairsOf,
@@ -178,7 +178,7 @@ theorem empty_entry_no_override :
 def differ (ty : Ty) (h : String) : Bool :=
   match fromHex h with
   | none => false
-  | some b => match unmarshal ty b, Spec.Protobuf.decode ty b with
+  | some b => match unmarshalU ty b, Spec.Protobuf.decode ty b with
     | .ok v, some v' => (canonical ty v).show != (canonical ty v').show
     | _, _ => false
 def ne (ty : Ty) (h : String) : Bool :=
